@@ -34,6 +34,24 @@ pub fn case_json(items: Vec<(&str, J)>) -> J {
 pub fn hx(b: &[u8]) -> J {
     J::Str(hex(b))
 }
+/// Match `expect` as an in-order subsequence of `log` (extra entries in the log are allowed: a harmless
+/// refactor may pre-generate or re-generate blocks).  Ok(number of extra entries) or Err(index of the
+/// first expected entry that does not occur in order).
+pub fn match_subsequence(log: &[Vec<u8>], expect: &[Vec<u8>]) -> Result<usize, usize> {
+    let mut i = 0;
+    for (j, e) in expect.iter().enumerate() {
+        loop {
+            if i >= log.len() {
+                return Err(j);
+            }
+            i += 1;
+            if log[i - 1] == *e {
+                break;
+            }
+        }
+    }
+    Ok(log.len() - expect.len())
+}
 /// first index where two byte strings differ
 pub fn first_diff(a: &[u8], b: &[u8]) -> Option<usize> {
     if a.len() != b.len() {
